@@ -130,6 +130,8 @@ def build(P):
             c.params = dict(base.params, matching_mode=VEnum(MM, mi))
             c.requires = list(base.requires) + [("task_family", cond)]
             P.verify(f"{OR}:get_object_results", name=f"get_object_results[3-D, {mode}, {fam}]", contract=c, extra_contracts=extra)
+    # 2-D objects with a ROI (traffic lights included) take the same two greedy stages: the dominance contract with 2-D object lists
+    C01.dispatch_tasks(P, base, extra)
     # the cells the dominance invariants read: _get_score_table re-verified here (a change to the compatibility mask alone breaks C02, not C01's counting)
     C01.score_table_tasks(P)
     C01.matching_module_tasks(P)
